@@ -865,6 +865,97 @@ func filterBeforeSplice(file string) bool {
 	return false
 }
 
+// levelWrites inspects every write to rs.level in resolver.go: (a) resolveWithCachedNameservers
+// assigns it from dns.CountLabel(...) and never increments it; (b) processDelegation assigns
+// `rs.level = nlevel` where nlevel := dns.CountLabel(q.Name); (c) every `rs.level++` anywhere sits
+// under an `if` whose condition mentions `minimized` (the QNAME-minimisation steps, which only ever
+// RAISE the level above the zone's depth, i.e. narrow the glue bailiwick).
+func levelWrites(file string) bool {
+	fset := token.NewFileSet()
+	f, err := parser.ParseFile(fset, file, nil, 0)
+	if err != nil {
+		return false
+	}
+	isLevel := func(e ast.Expr) bool {
+		s, ok := e.(*ast.SelectorExpr)
+		if !ok || s.Sel.Name != "level" {
+			return false
+		}
+		id, ok := s.X.(*ast.Ident)
+		return ok && id.Name == "rs"
+	}
+	isCountLabel := func(e ast.Expr) bool {
+		c, ok := e.(*ast.CallExpr)
+		if !ok {
+			return false
+		}
+		s, ok := c.Fun.(*ast.SelectorExpr)
+		return ok && s.Sel.Name == "CountLabel"
+	}
+	mentions := func(n ast.Node, name string) bool {
+		found := false
+		ast.Inspect(n, func(x ast.Node) bool {
+			if id, ok := x.(*ast.Ident); ok && id.Name == name {
+				found = true
+			}
+			return true
+		})
+		return found
+	}
+	cachedOK, cachedInc, delegOK, nlevelOK, incOK := false, false, false, false, true
+	for _, d := range f.Decls {
+		fd, ok := d.(*ast.FuncDecl)
+		if !ok || fd.Body == nil {
+			continue
+		}
+		var stack []ast.Node
+		ast.Inspect(fd.Body, func(n ast.Node) bool {
+			if n == nil {
+				stack = stack[:len(stack)-1]
+				return true
+			}
+			stack = append(stack, n)
+			switch x := n.(type) {
+			case *ast.IncDecStmt:
+				if isLevel(x.X) {
+					if fd.Name.Name == "resolveWithCachedNameservers" {
+						cachedInc = true
+					}
+					guarded := false
+					for _, anc := range stack {
+						if ifs, ok := anc.(*ast.IfStmt); ok && mentions(ifs.Cond, "minimized") {
+							guarded = true
+						}
+					}
+					if !guarded || x.Tok != token.INC {
+						incOK = false
+					}
+				}
+			case *ast.AssignStmt:
+				for i, l := range x.Lhs {
+					if i < len(x.Rhs) && isLevel(l) && len(x.Lhs) == len(x.Rhs) {
+						switch fd.Name.Name {
+						case "resolveWithCachedNameservers":
+							if isCountLabel(x.Rhs[i]) {
+								cachedOK = true
+							}
+						case "processDelegation":
+							if id, ok := x.Rhs[i].(*ast.Ident); ok && id.Name == "nlevel" {
+								delegOK = true
+							}
+						}
+					}
+					if id, ok := l.(*ast.Ident); ok && id.Name == "nlevel" && fd.Name.Name == "processDelegation" && i < len(x.Rhs) && isCountLabel(x.Rhs[i]) {
+						nlevelOK = true
+					}
+				}
+			}
+			return true
+		})
+	}
+	return cachedOK && !cachedInc && delegOK && nlevelOK && incOK
+}
+
 // (referral, authZone, qname): proper, self, self in other case, upward, root, sideways,
 // string-suffix look-alike, off path, referral == qname, escaped dot, from the root
 var probeTriples = [][3]string{
@@ -951,10 +1042,12 @@ func facts() map[string]any {
 		"usable_public_probe":              pub,
 		// answer() filters the answer section to the asked zone before a DNAME target's data is spliced in
 		"shape_answer_filters_before_splice": filterBeforeSplice(rfile),
-		"in_zone_probe":                      inZone,
-		"question_match_probe":               qm,
-		"progressing_probe":                  prog,
-		"compare_suffix_probe":               cmp,
+		// every write to rs.level is "the label count of the zone now asked" or a minimisation step upwards
+		"shape_level_is_zone_depth": levelWrites(rfile),
+		"in_zone_probe":             inZone,
+		"question_match_probe":      qm,
+		"progressing_probe":         prog,
+		"compare_suffix_probe":      cmp,
 	}
 }
 
